@@ -67,7 +67,9 @@ where
         let mut remaining_to_read = self.size;
 
         while remaining_to_read > 0 {
-            let mut buf = vec![0; remaining_to_read];
+            // the declared length comes from the client: never allocate it, discard
+            // the remainder through a bounded buffer
+            let mut buf = vec![0; std::cmp::min(remaining_to_read, 8192)];
 
             match self.reader.read(&mut buf) {
                 Err(e) => {
